@@ -145,6 +145,14 @@ var extraQueries = []string{
 	"match ()-[r {x: 1, y: 'two', z: false}]->() return r",
 	"match p = (n {k1: 'v1', k2: 'v2', k3: 'v3'})-[*1..2]->(m {k4: 4, k5: 5}) return p",
 	"match (n) where n.props = {a: 1, b: 2, c: 3} return n",
+	// the traversal-count shape in its variants: a predicate on the first MATCH, on the second, on both, on neither;
+	// both directions; the count returned or only sorted by
+	"match (u) where u.enabled = true match (u)-[*1..]->(c) where c.tier = 0 with distinct u, count(c) as hits return u as out order by hits desc limit 10",
+	"match (u) where u.name = $p match (u)<-[*2..4]-(c) where c.name = $p with distinct u, count(c) as hits return u as out, hits as total order by hits desc limit 3",
+	"match (u:NodeKind1) match (u)-[:EdgeKind1*1..]->(c:NodeKind2) where c.tier = 0 with u, count(c) as hits return u, hits order by hits desc limit 5",
+	"match (u:NodeKind1) where u.enabled = true match (u)-[:EdgeKind1*1..]->(c:NodeKind2) with u, count(c) as hits return u, hits order by hits desc limit 5",
+	"match (u:NodeKind1) match (u)<-[:EdgeKind1*1..]-(c:NodeKind2) with u, count(c) as hits return u order by hits desc limit 5",
+	"match (u:NodeKind1) where u.a = 1 and u.b = 2 match (u)-[:EdgeKind1|EdgeKind2*1..3]->(c) where c.a = u.a with u, count(c) as hits return u, hits order by hits desc limit 5",
 }
 
 // names the translator itself generates (IdentifierGenerator prefixes and fixed column names)
@@ -200,6 +208,12 @@ func TestVerifBoundedTranslate(t *testing.T) {
 		}
 	}
 	cases := 0
+	knownMain, knownMainHits, knownMainExamples := map[string]bool{}, map[string]int{}, map[string]string{}
+	for _, name := range strings.Split(os.Getenv("VERIF_KNOWN"), "|") {
+		if name = strings.TrimSpace(name); name != "" {
+			knownMain[name] = true
+		}
+	}
 	parse := func(tc *TranslationTestCase) *cypher.RegularQuery {
 		model, err := frontend.ParseCypher(frontend.NewContext(), tc.Cypher)
 		if err != nil {
@@ -370,7 +384,21 @@ func TestVerifBoundedTranslate(t *testing.T) {
 					case errR != nil:
 						fail("C06 naming variable %q like the translator's own %q turns the translatable query %q into an error: %v", plainVars[vi], w, tc.Cypher, errR)
 					default:
-						if want := substOutsideLiterals(sqlZ, composeRenaming(vmZ, vm)); want != sqlR {
+						want := substOutsideLiterals(sqlZ, composeRenaming(vmZ, vm))
+						if want != sqlR && strings.Contains(sqlZ, "terminal_hits(") && strings.ReplaceAll(sqlR, "terminal_count", w) == want {
+							// the traversal-count lowering names its count column after the user's alias unless that is not
+							// a plain identifier or is root_id, and terminal_count otherwise: the one difference here
+							if knownMain["names-own@aggregate-count"] {
+								knownMainHits["names-own@aggregate-count"]++
+								if _, has := knownMainExamples["names-own@aggregate-count"]; !has {
+									knownMainExamples["names-own@aggregate-count"] = fmt.Sprintf("variable %q named %q in %q", plainVars[vi], w, tc.Cypher)
+								}
+								continue
+							}
+							fail("C06 naming variable %q like the translator's own %q changes more than that name for %q (the count column of the ranked CTE is called terminal_count instead) [class names-own@aggregate-count]", plainVars[vi], w, tc.Cypher)
+							continue
+						}
+						if want != sqlR {
 							fail("C06 naming variable %q like the translator's own %q changes more than that name for %q:\n  %s\n  %s", plainVars[vi], w, tc.Cypher, want, sqlR)
 						}
 					}
@@ -466,6 +494,10 @@ func TestVerifBoundedTranslate(t *testing.T) {
 	}
 	x.seed, _ = strconv.ParseInt(os.Getenv("VERIF_SEED"), 10, 64)
 	extBound := vxRunExtension(x)
+	for k, v := range knownMainHits {
+		x.hits[k] += v
+		x.examples[k] = knownMainExamples[k]
+	}
 	res := map[string]any{"name": "translate", "bound": fmt.Sprintf("%d translation case queries x {repeat, 8 concurrent, %d renamings, parameter/variable collision} + %d parser fixture queries x {no panic, repeat, AST unchanged} + %s", len(testCases), rotations+1, corpus, extBound), "cases": cases, "exhaustive": false, "failures": failures, "known_deviation_hits": x.hits, "known_deviation_examples": x.examples, "failure_classes": x.unknown}
 	out, _ := json.Marshal(res)
 	fmt.Println("BOUNDED-RESULT " + strings.ReplaceAll(string(out), "\\n", " "))
